@@ -219,6 +219,49 @@ def true_objects(g, c_sys, kind, m=2, classes=("interior", "boundary", "pure"), 
     return out
 
 
+def edge_objects(c_sys, kind, m=2, flag=True):
+    """boundary objects with EXACT zero-probability outcomes on typical testers, the zero not being the last outcome:
+    projective measurements / instruments along the computational basis (and along x, y for a qubit), also with
+    relabelled outcomes and with a split outcome; basis states for QST.  Deterministic."""
+    d = c_sys.dim
+    B = basis_stack(c_sys)
+    kw = dict(on_para_eq_constraint=flag)
+    out = []
+
+    def projectors(u):
+        return [np.outer(u[:, i], u[:, i].conj()) for i in range(d)]
+
+    bases = [("z", np.eye(d, dtype=complex))]
+    if d == 2:
+        bases.append(("x", np.array([[1, 1], [1, -1]], dtype=complex) / np.sqrt(2)))
+        bases.append(("y", np.array([[1, 1], [1j, -1j]], dtype=complex) / np.sqrt(2)))
+    for name, u in bases:
+        ps = projectors(u)
+        for order in ("fwd", "rev"):
+            groups = [np.zeros((d, d), dtype=complex) for _ in range(m)]
+            for i in range(d):
+                k = i % m if order == "fwd" else (m - 1 - i) % m
+                groups[k] = groups[k] + ps[i]
+            lab = f"edge-{name}-{order}"
+            if kind == "qst":
+                if order == "fwd":
+                    for i in range(d):
+                        out.append(TrueObj(kind, f"edge-{name}{i}", State(c_sys, vec_of(B, ps[i]), **kw), rho=ps[i]))
+            elif kind == "povmt":
+                out.append(TrueObj(kind, lab, Povm(c_sys, [vec_of(B, e) for e in groups], **kw), elems=groups))
+            elif kind == "qmpt":
+                gr = [[p] for p in groups]
+                out.append(TrueObj(kind, lab, MProcess(c_sys, [hs_of_kraus(B, ks) for ks in gr], **kw), groups=gr))
+        if kind == "qmpt" and m >= 3 and d == 2:
+            # first outcome: |0> detected; the second basis state detected and kept / flipped with probability 1/2 each
+            flip = u @ np.array([[0, 1], [1, 0]], dtype=complex) @ u.conj().T
+            gr = [[ps[0]], [np.sqrt(0.5) * ps[1]], [np.sqrt(0.5) * flip @ ps[1]]] + \
+                 [[np.zeros((d, d), dtype=complex)] for _ in range(m - 3)]
+            out.append(TrueObj(kind, f"edge-{name}-split", MProcess(c_sys, [hs_of_kraus(B, ks) for ks in gr], **kw),
+                               groups=gr))
+    return out
+
+
 # ----------------------------------------------------------------------------- tomography + schedules
 def default_schedules(kind, n_states, n_povms):
     if kind == "qst":
